@@ -13,7 +13,7 @@ use ip::{
 use netconf::message::{rpc::operation::Datastore, ReadError, ReadXml};
 use quick_xml::{
     events::{BytesStart, Event},
-    name::{Namespace, ResolveResult},
+    name::{Namespace, QName, ResolveResult},
     NsReader,
 };
 use rpsl::expr::MpFilterExpr;
@@ -55,6 +55,31 @@ fn read_name(reader: &mut NsReader<&[u8]>, tag: &BytesStart<'_>) -> Result<Name,
     let raw = reader.read_text(tag.to_end().name())?;
     let name = quick_xml::escape::unescape(&raw).map_err(quick_xml::Error::from)?;
     Ok(Name::new(name))
+}
+
+/// Skip the rest of the element whose start tag `name` was just read, up to and including its
+/// end tag. `NsReader::read_to_end` leaves that to the inner `Reader`, which consumes the end tag
+/// without closing the namespace scope opened for the start tag, so the declarations made on a
+/// skipped element (`xmlns:jcmd=".."`) would stay in force for every statement after it. Reading
+/// the events through the `NsReader` keeps the scopes balanced.
+fn skip_to_end(reader: &mut NsReader<&[u8]>, name: QName<'_>) -> Result<(), ReadError> {
+    let mut depth = 0_usize;
+    loop {
+        match reader.read_event()? {
+            Event::Start(tag) if tag.name() == name => depth += 1,
+            Event::End(tag) if tag.name() == name => {
+                if depth == 0 {
+                    return Ok(());
+                }
+                depth -= 1;
+            }
+            Event::Eof => {
+                let name = String::from_utf8_lossy(name.as_ref()).into_owned();
+                return Err(quick_xml::Error::UnexpectedEof(format!("</{name}>")).into());
+            }
+            _ => {}
+        }
+    }
 }
 
 impl<T> ReadXml for Policies<T>
@@ -156,7 +181,7 @@ impl ReadXml for Maybe<Candidate> {
                     if name.as_ref() == b"active" && attr.unescape_value()? == "false" =>
                 {
                     tracing::debug!("skipping inactive policy-statement");
-                    _ = reader.read_to_end(end.name())?;
+                    skip_to_end(reader, end.name())?;
                     return Ok(Self(None));
                 }
                 (ResolveResult::Bound(JCMD), name) if name.as_ref() == b"comment" => {
@@ -184,7 +209,7 @@ impl ReadXml for Maybe<Candidate> {
             }
         }
         let Some(filter_expr) = maybe_filter_expr else {
-            _ = reader.read_to_end(end.name())?;
+            skip_to_end(reader, end.name())?;
             return Ok(Self(None));
         };
         let mut name = None;
@@ -217,7 +242,7 @@ impl ReadXml for Maybe<Candidate> {
                             (_, Event::Comment(_)) => continue,
                             (_, Event::End(tag)) if tag == end => break,
                             (_, Event::Start(tag)) => {
-                                _ = reader.read_to_end(tag.name())?;
+                                skip_to_end(reader, tag.name())?;
                                 other_content = true;
                             }
                             (_, Event::Empty(_) | Event::Text(_) | Event::CData(_)) => {
@@ -233,7 +258,7 @@ impl ReadXml for Maybe<Candidate> {
                 (_, Event::Comment(_)) => continue,
                 (_, Event::End(tag)) if tag == end => break,
                 (_, Event::Start(tag)) => {
-                    _ = reader.read_to_end(tag.name())?;
+                    skip_to_end(reader, tag.name())?;
                     other_content = true;
                 }
                 (_, Event::Empty(_) | Event::Text(_) | Event::CData(_)) => {
